@@ -8,6 +8,7 @@ import numpy as np
 from collections import defaultdict, OrderedDict
 from typing import Optional, Iterable
 
+from fractions import Fraction
 from mido import MidiFile, MidiTrack, Message, MetaMessage, merge_tracks
 from mido.midifiles.meta import UnknownMetaMessage
 
@@ -455,19 +456,32 @@ def save_score_midi(
             ts_changing_time = [ts.start.t for ts in all_ts]
             # starts of the measures that get a signature of their own
             irregular_measure_time = []
+            # (in notated beats, also for a part that counts in musical beats)
+            notated_beat_map = part._time_interpolator()
             for measure in part.iter_all(score.Measure):
-                m_duration_beat = part.beat_map(measure.end.t) - part.beat_map(
-                    measure.start.t
+                m_duration_beat = float(
+                    notated_beat_map(measure.end.t) - notated_beat_map(measure.start.t)
                 )
                 m_ts = part.time_signature_map(measure.start.t)
-                if m_duration_beat != m_ts[0]:
-                    # add ts change
-                    # TODO: add support for changing the beat type if number of beats is not integer
+                # (the length is a sum of floats: a full bar may come out a
+                # rounding error short)
+                if not np.isclose(m_duration_beat, m_ts[0], rtol=1e-9, atol=0):
+                    # add ts change: whole beats of the notated unit if the
+                    # measure has a whole number of them, otherwise beats of a
+                    # shorter unit (half a quarter beat is 1/8)
+                    beats = Fraction(m_duration_beat).limit_denominator(64)
+                    numerator = beats.numerator
+                    denominator = int(m_ts[1]) * beats.denominator
+                    if denominator & (denominator - 1) or denominator > 128:
+                        # no such signature in a MIDI file: the nearest
+                        # number of notated beats, at least one
+                        numerator = max(1, int(round(m_duration_beat)))
+                        denominator = int(m_ts[1])
                     meta_events[part][to_ppq(measure.start.t)].append(
                         MetaMessage(
                             "time_signature",
-                            numerator=int(m_duration_beat),
-                            denominator=int(m_ts[1]),
+                            numerator=numerator,
+                            denominator=denominator,
                         )
                     )
                     ts_changing_time.append(
